@@ -546,6 +546,26 @@ func loadFindings() []finding {
 	return fs
 }
 
+// lockSite names the driver function in which a goroutine of a frozen run waits for a mutex.
+func lockSite(stacks string) string {
+	for _, blk := range strings.Split(stacks, "\n\n") {
+		nl := strings.IndexByte(blk, '\n')
+		if nl < 0 || !(strings.Contains(blk[:nl], "sync.Mutex.Lock") || strings.Contains(blk[:nl], "sync.RWMutex")) {
+			continue
+		}
+		for _, l := range strings.Split(blk[nl+1:], "\n") {
+			if strings.HasPrefix(l, "github.com/gocql/gocql.") && !strings.Contains(l, "verifsim") {
+				l = strings.TrimPrefix(l, "github.com/gocql/gocql.")
+				if i := strings.LastIndex(l, "("); i > 0 {
+					l = l[:i]
+				}
+				return l
+			}
+		}
+	}
+	return "?"
+}
+
 func knownFor(fs []finding, prop, sig string) *finding {
 	for i := range fs {
 		if fs[i].Status == "known" && fs[i].Property == prop && fs[i].Signature == sig {
@@ -765,7 +785,10 @@ func cmdCheck(prop string, args []string) {
 		}
 		json.Unmarshal([]byte(s), &st)
 		if st.Class == "driver-lock-deadlock" && spec.DeadlockProperty != "" {
-			p := &payload{Violation: &violation{Property: spec.DeadlockProperty, Signature: spec.DeadlockProperty + "/lock-deadlock", Message: st.Stacks}}
+			p := &payload{Violation: &violation{Property: spec.DeadlockProperty, Signature: spec.DeadlockProperty + "/lock-deadlock:" + lockSite(st.Stacks), Message: "a driver goroutine waits for a lock that nobody will release (goroutine dump of the frozen run):\n" + st.Stacks}}
+			if si < len(stallRuns) {
+				p.Scenario, p.BaseSeed, p.Index, p.Tier = stallRuns[si].scenario, *seed, stallRuns[si].index, *tier
+			}
 			addG(spec.DeadlockProperty, p.Violation.Signature, p)
 		} else if st.Class == "driver-lock-deadlock" {
 			otherProps["(lock deadlock in the driver; reported by the C06/C17 checks)"]++
@@ -942,7 +965,7 @@ func finalize(ex *payload, sig string, budget time.Duration, seed int64, tier st
 	if strings.Contains(sig, "/stall/") {
 		rawSig = sig[strings.Index(sig, "/stall/")+1:]
 	}
-	if strings.HasSuffix(sig, "/lock-deadlock") {
+	if strings.Contains(sig, "/lock-deadlock") {
 		p.ReplaysOK = "not replayed (stall)"
 		return &p
 	}
